@@ -51,6 +51,14 @@ PROPS: dict[str, dict] = {
                         "spec lemma: readiness of a tree is monotone in the payload heap (induction on the tree, not machine-checked)"],
         "explanation": "attach_payload contracts (write-once, rejected attach changes nothing, frame) + AST scan: no other payload write in the library; execute and _process_recursive never replace a payload",
     },
+    "C17": {
+        "modules": ["sqlsel"],
+        "assumptions": ["every Select object is built by Select.apply_skip (its coherence invariant is proved there and assumed on read; hand-built Select objects are outside the property)",
+                        "law library spec/laws.py (status per law in coverage.law_library; dedup-slice-dedup and proj-chain are bounded-checked only unless listed as Lean-proved)",
+                        "base-class Engine.transfer/materialize/make_* and Join/Chain _finish_apply enter through their contracts (C14/C15/C20)",
+                        "SQL emission (to_payload/_select_to_executable) is not covered: rows(select) is the relational meaning of the marker, not of the SQL text (C02)"],
+        "explanation": "Select coherence as a class invariant proved at its only construction site (Select.apply_skip); sql.Engine.conform, _append_unary_to_select (all arms), _append_binary_to_select, Select.reapply/strip and the engine entry points proved to return coherent Selects with the rows of the request",
+    },
     "C07": {
         "modules": ["processor"],
         "assumptions": ["the user's Processor.transfer/materialize hooks return a payload holding the rows of their source (assumed contract; their preconditions are proved at the call sites)",
@@ -204,6 +212,13 @@ PROPS["C10"].update(
     level_note=_COMMON_NOTE + "Processor hooks and engine payload factories enter as assumed contracts. Known finding F13: a materialization behind a plain marker (every SQL materialization wraps a Select) never receives its payload, so its upstream is evaluated again by every process() call. "
                "One frame obligation of _process_recursive is covered by the bounded stand-in S-C07-frame-rebuilt-materialization (labelled bounded).",
 )
+PROPS["C17"].update(
+    level_text="Select coherence is a class invariant (rows(select.target) == slice(dedup?(proj?(sort(rows(skip_to))))) with the recorded operations; peeling the recorded slice/deduplication/projection/sort nodes off select.target arrives at skip_to; is_compound iff skip_to is a Chain node; "
+               "skip_to has no managed operation on top) proved at the only construction site, Select.apply_skip, for all arguments. sql.Engine.conform is proved idempotent (a Select is returned as the same object) and content-preserving (rows, columns, engine) by recursion on any well-formed tree; "
+               "_append_unary_to_select (every operation class and flag combination) and _append_binary_to_select are proved to return a Select whose rows are the operation applied; Select.reapply/strip and Engine.append_unary/append_binary/transfer/materialize return Selects with the expected rows.",
+    level_note=_COMMON_NOTE + _LAWS + "Five genuine defects surface as failing obligations and are recorded as known findings, each re-proved with its witness class excluded: F11 (marker/skip target divergence), F23, F10 (sort column projected away: accepted tree does not compile), F24 (calculation re-binds a hidden column), F7-sql (join hoists a projection). "
+               "Assumed: Select objects are only built by apply_skip; SQL emission is outside this check (C02).",
+)
 PROPS["C07"].update(
     level_text="Processor._process_recursive is proved against a contract over the payload heap (ghost state): the returned tree has the rows, columns and engine of the input; it can be evaluated by its engine alone (every transfer/materialization in it carries a payload or is statically trivial); "
                "the transfer/materialize hooks are invoked only on sources with that property and never for a statically empty or join-identity relation (hook preconditions are obligations at the call sites); no existing payload is replaced, engine-changing transfers of the input never gain one, "
@@ -212,5 +227,5 @@ PROPS["C07"].update(
                "Bounded, not proved: the frame clause when a re-created materialization resolves to an existing node (stand-in S-C07-frame-rebuilt-materialization, replay/bounded_processor.py, 30000 random trees). Known finding F13 (persisted flag through plain markers). "
                "'Same-engine transfers' (destination == target engine; never built by Engine.transfer) are exempt from the never-gain clause.",
 )
-CLAIMED = {"C01", "C03", "C04", "C05", "C06", "C07", "C09", "C10", "C12", "C13", "C14", "C15", "C16", "C19", "C20"}
+CLAIMED = {"C01", "C03", "C04", "C05", "C06", "C07", "C09", "C10", "C12", "C13", "C14", "C15", "C16", "C17", "C19", "C20"}
 NOT_CLAIMED: dict[str, str] = {}
